@@ -25,6 +25,8 @@ META = {
             "Pass-2 hystereses of every executed sequence are compared with an independent periodic rainflow count; junction classes are required and measured; refinement by non-reversal samples (also at the junction) must not change what is counted.", "3 C04"),
     "C05": ("exploration", "runtime monitoring: history + independent executable model (material-memory HCM simulator driven by the observed reversal stream), batch-vs-single and negation relations",
             "Every recorded hysteresis (15 columns) and the visited strain values are compared with an independent implementation of the guideline procedure evaluating the same law object; multi-point batches are compared with single-point runs.", "3 C05"),
+    "C06": ("exploration", "runtime monitoring: reference-equation oracle (bracketing solve of the guideline equations) on every returned value, inverse/oddness/monotonicity/container relations, exception-type monitor",
+            "Each returned stress is compared with an independent bracketing solve of the defining equation at the requested tolerance; RuntimeError is counted as the property allows, other exception types are violations.", "3 C06"),
     "C03": ("exploration", "runtime monitoring: metamorphic relation monitors between executions (refinement, negation, "
             "affine map, NaN insertion, Series index types), sanitizer replays",
             "Relations between pairs of real executions, each with its own counter; ties that rounding may flip are "
